@@ -356,6 +356,10 @@ bool Directory::copy(const String& from, const String& to)
 	if(tofile.isDirectory())
 		topath = to + '/' + File(from).name();
 
+	struct stat s1, s2;
+	if (stat(from, &s1) == 0 && stat(topath, &s2) == 0 && s1.st_dev == s2.st_dev && s1.st_ino == s2.st_ino)
+		return true; // source and destination are the same file: opening it for writing would empty it
+
 	File dst(topath, File::WRITE);
 	if(!dst)
 		return false;
